@@ -29,6 +29,9 @@ var zzC10Programs = []string{
 	/* 11 */ `<p title="pre {{ t }}">{{ t | upper | lower }}</p>`,
 	/* 12 */ `<p>{{ keys['first name'] }}|{{ keys["a b"] }}</p>`,
 	/* 13 */ `<p>{{ keys['firstname'] }}|{{ keys["ab"] }}|{{ keys.ab }}</p>`,
+	// compiled expressions whose texts differ by blanks inside a string literal only
+	/* 14 */ `<p>{{ a + '-' + 'x y' }}</p><i v-if="t + ' 1' == 'T 1' || t + ' 1' == 'T2 1'">narrow</i>`,
+	/* 15 */ `<p>{{ a + '-' + 'x  y' }}</p><i v-if="t + ' 1' == 'T  1' || t + ' 1' == 'T2  1'">wide</i>`,
 }
 
 func zzC10FS() *zzFS {
@@ -104,8 +107,9 @@ func VerifC10_History() {
 		zzAssert(out == fresh, "C10.history.output-differs-from-fresh-engine")
 		// process-wide caches are shared by the fresh engine too: these
 		// programs also have an absolute expectation
-		if want, ok := map[int]string{12: "SPACED|S2", 13: "COMPACT|C2|C2"}[k]; ok && err == nil {
-			zzAssert(strings.Contains(out, want), "C10.history.output-depends-on-earlier-renders")
+		if want, ok := map[int]string{12: "SPACED|S2", 13: "COMPACT|C2|C2", 14: "-x y</p>", 15: "-x  y</p>"}[k]; ok && err == nil {
+			zzAssert(strings.Contains(out, want) && !strings.Contains(out, "wide"), "C10.history.output-depends-on-earlier-renders")
+			zzAssert(strings.Contains(out, "narrow") == (k == 14), "C10.history.output-depends-on-earlier-renders")
 		}
 	}
 	if nofs {
